@@ -151,8 +151,15 @@ pub fn run_one(tr: &RunTrace, opts: &RunOpts) -> RunReport {
     if let (Some(exe), false) = (&opts.exe, opts.miri) {
         let cands: Vec<&Pending> = pending.iter().filter(|p| !matches!(p.outcome, Outcome::Panic(PanicClass::Logger)) && special_mask(&p.input).is_none()).collect();
         if !cands.is_empty() {
-            for k in 0..tr.knobs.iso {
-                let p = cands[(crate::rng::mix(tr.seed, 0x150 + k) % cands.len() as u64) as usize];
+            // iso >= 99 (set by the minimiser): every candidate, so that dropping operations does
+            // not change which one is sampled
+            let picks: Vec<usize> = if tr.knobs.iso >= 99 {
+                (0..cands.len().min(64)).collect()
+            } else {
+                (0..tr.knobs.iso).map(|k| (crate::rng::mix(tr.seed, 0x150 + k) % cands.len() as u64) as usize).collect()
+            };
+            for pi in picks {
+                let p = cands[pi];
                 match eval_in_fresh_process(exe, &p.input, &p.op) {
                     Ok(line) => {
                         world.stats.refs_process.fetch_add(1, Ordering::Relaxed);
